@@ -36,7 +36,8 @@ variables
   queue = <<>>, results = {}, pause = {},
   executed = [id \in Ids |-> 0], delivered = [id \in Ids |-> 0],
   moved = [i \in Iface |-> FALSE],
-  reached = [i \in Iface |-> FALSE],
+  inloop = FALSE,                         \* solver inside the pause loop
+  early = [i \in Iface |-> FALSE],        \* wait() returned outside it
   inpause = [i \in Iface |-> FALSE],
   spur = [i \in Iface |-> FALSE],
   ip = [i \in Iface |-> 1], nq = [i \in Iface |-> 0], nr = [i \in Iface |-> 0],
@@ -78,7 +79,7 @@ fair process (S \in {Solver}) {
   s3:   release("qlock");
   s4:   acquire("qlock");                     \* wait_for_cmd
   s5:   while (pause # {}) {
-          reached := [i \in Iface |-> reached[i] \/ i \in pause];
+          inloop := TRUE;
   s6:     acquire("plock");
   s7:     notify_all("plock");
   s8:     release("plock");
@@ -87,6 +88,7 @@ fair process (S \in {Solver}) {
   s11:    call RunQueued();
         };
   s12:  release("qlock");
+        inloop := FALSE;
   s13:  moved := [i \in Iface |-> TRUE];      \* the solver takes a time step
       }
 }
@@ -117,7 +119,6 @@ fair+ process (I \in Iface) {
         } else if (Prog[self][ip[self]] = "P") {
   p1:     acquire("plock");
   p2:     pause := pause \cup {self};
-          reached[self] := FALSE;
   p3:     notify_one("plock");
   p4:     release("plock");
         } else if (Prog[self][ip[self]] = "W") {
@@ -127,6 +128,7 @@ fair+ process (I \in Iface) {
   w3:     cond_wake("plock");
   w4:     release("plock");
           inpause[self] := TRUE;
+          early[self] := ~inloop;
           moved[self] := FALSE;
         } else if (Prog[self][ip[self]] = "C") {
   c1:     acquire("plock");
@@ -142,13 +144,14 @@ fair+ process (I \in Iface) {
       }
 }
 } *)
-\* BEGIN TRANSLATION (chksum(pcal) = "30e82499" /\ chksum(tla) = "371cfa55")
+\* BEGIN TRANSLATION (chksum(pcal) = "fc126df5" /\ chksum(tla) = "b15cc3fa")
 VARIABLES pc, owner, tlock, waiting, woken, queue, results, pause, executed, 
-          delivered, moved, reached, inpause, spur, ip, nq, nr, cur, stack
+          delivered, moved, inloop, early, inpause, spur, ip, nq, nr, cur, 
+          stack
 
 vars == << pc, owner, tlock, waiting, woken, queue, results, pause, executed, 
-           delivered, moved, reached, inpause, spur, ip, nq, nr, cur, stack
-        >>
+           delivered, moved, inloop, early, inpause, spur, ip, nq, nr, cur, 
+           stack >>
 
 ProcSet == ({Solver}) \cup (Iface)
 
@@ -163,7 +166,8 @@ Init == (* Global variables *)
         /\ executed = [id \in Ids |-> 0]
         /\ delivered = [id \in Ids |-> 0]
         /\ moved = [i \in Iface |-> FALSE]
-        /\ reached = [i \in Iface |-> FALSE]
+        /\ inloop = FALSE
+        /\ early = [i \in Iface |-> FALSE]
         /\ inpause = [i \in Iface |-> FALSE]
         /\ spur = [i \in Iface |-> FALSE]
         /\ ip = [i \in Iface |-> 1]
@@ -182,16 +186,16 @@ rq1(self) == /\ pc[self] = "rq1"
                    ELSE /\ pc' = [pc EXCEPT ![self] = "rq5"]
                         /\ UNCHANGED << queue, cur >>
              /\ UNCHANGED << owner, tlock, waiting, woken, results, pause, 
-                             executed, delivered, moved, reached, inpause, 
-                             spur, ip, nq, nr, stack >>
+                             executed, delivered, moved, inloop, early, 
+                             inpause, spur, ip, nq, nr, stack >>
 
 rq2(self) == /\ pc[self] = "rq2"
              /\ owner["reslock"] = NONE
              /\ owner' = [owner EXCEPT !["reslock"] = self]
              /\ pc' = [pc EXCEPT ![self] = "rq3"]
              /\ UNCHANGED << tlock, waiting, woken, queue, results, pause, 
-                             executed, delivered, moved, reached, inpause, 
-                             spur, ip, nq, nr, cur, stack >>
+                             executed, delivered, moved, inloop, early, 
+                             inpause, spur, ip, nq, nr, cur, stack >>
 
 rq3(self) == /\ pc[self] = "rq3"
              /\ results' = (results \cup {cur})
@@ -199,21 +203,21 @@ rq3(self) == /\ pc[self] = "rq3"
              /\ tlock' = [tlock EXCEPT ![cur] = "free"]
              /\ pc' = [pc EXCEPT ![self] = "rq4"]
              /\ UNCHANGED << owner, waiting, woken, queue, pause, delivered, 
-                             moved, reached, inpause, spur, ip, nq, nr, cur, 
-                             stack >>
+                             moved, inloop, early, inpause, spur, ip, nq, nr, 
+                             cur, stack >>
 
 rq4(self) == /\ pc[self] = "rq4"
              /\ owner' = [owner EXCEPT !["reslock"] = NONE]
              /\ pc' = [pc EXCEPT ![self] = "rq1"]
              /\ UNCHANGED << tlock, waiting, woken, queue, results, pause, 
-                             executed, delivered, moved, reached, inpause, 
-                             spur, ip, nq, nr, cur, stack >>
+                             executed, delivered, moved, inloop, early, 
+                             inpause, spur, ip, nq, nr, cur, stack >>
 
 rq5(self) == /\ pc[self] = "rq5"
              /\ pc' = [pc EXCEPT ![self] = Head(stack[self]).pc]
              /\ stack' = [stack EXCEPT ![self] = Tail(stack[self])]
              /\ UNCHANGED << owner, tlock, waiting, woken, queue, results, 
-                             pause, executed, delivered, moved, reached, 
+                             pause, executed, delivered, moved, inloop, early, 
                              inpause, spur, ip, nq, nr, cur >>
 
 RunQueued(self) == rq1(self) \/ rq2(self) \/ rq3(self) \/ rq4(self)
@@ -222,7 +226,7 @@ RunQueued(self) == rq1(self) \/ rq2(self) \/ rq3(self) \/ rq4(self)
 s0(self) == /\ pc[self] = "s0"
             /\ pc' = [pc EXCEPT ![self] = "s1"]
             /\ UNCHANGED << owner, tlock, waiting, woken, queue, results, 
-                            pause, executed, delivered, moved, reached, 
+                            pause, executed, delivered, moved, inloop, early, 
                             inpause, spur, ip, nq, nr, cur, stack >>
 
 s1(self) == /\ pc[self] = "s1"
@@ -230,8 +234,8 @@ s1(self) == /\ pc[self] = "s1"
             /\ owner' = [owner EXCEPT !["qlock"] = self]
             /\ pc' = [pc EXCEPT ![self] = "s2"]
             /\ UNCHANGED << tlock, waiting, woken, queue, results, pause, 
-                            executed, delivered, moved, reached, inpause, spur, 
-                            ip, nq, nr, cur, stack >>
+                            executed, delivered, moved, inloop, early, inpause, 
+                            spur, ip, nq, nr, cur, stack >>
 
 s2(self) == /\ pc[self] = "s2"
             /\ stack' = [stack EXCEPT ![self] = << [ procedure |->  "RunQueued",
@@ -239,64 +243,64 @@ s2(self) == /\ pc[self] = "s2"
                                                  \o stack[self]]
             /\ pc' = [pc EXCEPT ![self] = "rq1"]
             /\ UNCHANGED << owner, tlock, waiting, woken, queue, results, 
-                            pause, executed, delivered, moved, reached, 
+                            pause, executed, delivered, moved, inloop, early, 
                             inpause, spur, ip, nq, nr, cur >>
 
 s3(self) == /\ pc[self] = "s3"
             /\ owner' = [owner EXCEPT !["qlock"] = NONE]
             /\ pc' = [pc EXCEPT ![self] = "s4"]
             /\ UNCHANGED << tlock, waiting, woken, queue, results, pause, 
-                            executed, delivered, moved, reached, inpause, spur, 
-                            ip, nq, nr, cur, stack >>
+                            executed, delivered, moved, inloop, early, inpause, 
+                            spur, ip, nq, nr, cur, stack >>
 
 s4(self) == /\ pc[self] = "s4"
             /\ owner["qlock"] = NONE
             /\ owner' = [owner EXCEPT !["qlock"] = self]
             /\ pc' = [pc EXCEPT ![self] = "s5"]
             /\ UNCHANGED << tlock, waiting, woken, queue, results, pause, 
-                            executed, delivered, moved, reached, inpause, spur, 
-                            ip, nq, nr, cur, stack >>
+                            executed, delivered, moved, inloop, early, inpause, 
+                            spur, ip, nq, nr, cur, stack >>
 
 s5(self) == /\ pc[self] = "s5"
             /\ IF pause # {}
-                  THEN /\ reached' = [i \in Iface |-> reached[i] \/ i \in pause]
+                  THEN /\ inloop' = TRUE
                        /\ pc' = [pc EXCEPT ![self] = "s6"]
                   ELSE /\ pc' = [pc EXCEPT ![self] = "s12"]
-                       /\ UNCHANGED reached
+                       /\ UNCHANGED inloop
             /\ UNCHANGED << owner, tlock, waiting, woken, queue, results, 
-                            pause, executed, delivered, moved, inpause, spur, 
-                            ip, nq, nr, cur, stack >>
+                            pause, executed, delivered, moved, early, inpause, 
+                            spur, ip, nq, nr, cur, stack >>
 
 s6(self) == /\ pc[self] = "s6"
             /\ owner["plock"] = NONE
             /\ owner' = [owner EXCEPT !["plock"] = self]
             /\ pc' = [pc EXCEPT ![self] = "s7"]
             /\ UNCHANGED << tlock, waiting, woken, queue, results, pause, 
-                            executed, delivered, moved, reached, inpause, spur, 
-                            ip, nq, nr, cur, stack >>
+                            executed, delivered, moved, inloop, early, inpause, 
+                            spur, ip, nq, nr, cur, stack >>
 
 s7(self) == /\ pc[self] = "s7"
             /\ woken' = [woken EXCEPT !["plock"] = woken["plock"] \cup waiting["plock"]]
             /\ waiting' = [waiting EXCEPT !["plock"] = {}]
             /\ pc' = [pc EXCEPT ![self] = "s8"]
             /\ UNCHANGED << owner, tlock, queue, results, pause, executed, 
-                            delivered, moved, reached, inpause, spur, ip, nq, 
-                            nr, cur, stack >>
+                            delivered, moved, inloop, early, inpause, spur, ip, 
+                            nq, nr, cur, stack >>
 
 s8(self) == /\ pc[self] = "s8"
             /\ owner' = [owner EXCEPT !["plock"] = NONE]
             /\ pc' = [pc EXCEPT ![self] = "s9"]
             /\ UNCHANGED << tlock, waiting, woken, queue, results, pause, 
-                            executed, delivered, moved, reached, inpause, spur, 
-                            ip, nq, nr, cur, stack >>
+                            executed, delivered, moved, inloop, early, inpause, 
+                            spur, ip, nq, nr, cur, stack >>
 
 s9(self) == /\ pc[self] = "s9"
             /\ owner' = [owner EXCEPT !["qlock"] = NONE]
             /\ waiting' = [waiting EXCEPT !["qlock"] = waiting["qlock"] \cup {self}]
             /\ pc' = [pc EXCEPT ![self] = "s10"]
             /\ UNCHANGED << tlock, woken, queue, results, pause, executed, 
-                            delivered, moved, reached, inpause, spur, ip, nq, 
-                            nr, cur, stack >>
+                            delivered, moved, inloop, early, inpause, spur, ip, 
+                            nq, nr, cur, stack >>
 
 s10(self) == /\ pc[self] = "s10"
              /\ self \in woken["qlock"] /\ owner["qlock"] = NONE
@@ -304,8 +308,8 @@ s10(self) == /\ pc[self] = "s10"
              /\ owner' = [owner EXCEPT !["qlock"] = self]
              /\ pc' = [pc EXCEPT ![self] = "s11"]
              /\ UNCHANGED << tlock, waiting, queue, results, pause, executed, 
-                             delivered, moved, reached, inpause, spur, ip, nq, 
-                             nr, cur, stack >>
+                             delivered, moved, inloop, early, inpause, spur, 
+                             ip, nq, nr, cur, stack >>
 
 s11(self) == /\ pc[self] = "s11"
              /\ stack' = [stack EXCEPT ![self] = << [ procedure |->  "RunQueued",
@@ -313,22 +317,23 @@ s11(self) == /\ pc[self] = "s11"
                                                   \o stack[self]]
              /\ pc' = [pc EXCEPT ![self] = "rq1"]
              /\ UNCHANGED << owner, tlock, waiting, woken, queue, results, 
-                             pause, executed, delivered, moved, reached, 
+                             pause, executed, delivered, moved, inloop, early, 
                              inpause, spur, ip, nq, nr, cur >>
 
 s12(self) == /\ pc[self] = "s12"
              /\ owner' = [owner EXCEPT !["qlock"] = NONE]
+             /\ inloop' = FALSE
              /\ pc' = [pc EXCEPT ![self] = "s13"]
              /\ UNCHANGED << tlock, waiting, woken, queue, results, pause, 
-                             executed, delivered, moved, reached, inpause, 
-                             spur, ip, nq, nr, cur, stack >>
+                             executed, delivered, moved, early, inpause, spur, 
+                             ip, nq, nr, cur, stack >>
 
 s13(self) == /\ pc[self] = "s13"
              /\ moved' = [i \in Iface |-> TRUE]
              /\ pc' = [pc EXCEPT ![self] = "s0"]
              /\ UNCHANGED << owner, tlock, waiting, woken, queue, results, 
-                             pause, executed, delivered, reached, inpause, 
-                             spur, ip, nq, nr, cur, stack >>
+                             pause, executed, delivered, inloop, early, 
+                             inpause, spur, ip, nq, nr, cur, stack >>
 
 S(self) == s0(self) \/ s1(self) \/ s2(self) \/ s3(self) \/ s4(self)
               \/ s5(self) \/ s6(self) \/ s7(self) \/ s8(self) \/ s9(self)
@@ -356,14 +361,14 @@ i0(self) == /\ pc[self] = "i0"
                   ELSE /\ pc' = [pc EXCEPT ![self] = "Done"]
                        /\ nr' = nr
             /\ UNCHANGED << owner, tlock, waiting, woken, queue, results, 
-                            pause, executed, delivered, moved, reached, 
+                            pause, executed, delivered, moved, inloop, early, 
                             inpause, spur, ip, nq, cur, stack >>
 
 i1(self) == /\ pc[self] = "i1"
             /\ ip' = [ip EXCEPT ![self] = ip[self] + 1]
             /\ pc' = [pc EXCEPT ![self] = "i0"]
             /\ UNCHANGED << owner, tlock, waiting, woken, queue, results, 
-                            pause, executed, delivered, moved, reached, 
+                            pause, executed, delivered, moved, inloop, early, 
                             inpause, spur, nq, nr, cur, stack >>
 
 g1(self) == /\ pc[self] = "g1"
@@ -371,116 +376,115 @@ g1(self) == /\ pc[self] = "g1"
             /\ owner' = [owner EXCEPT !["dlock"] = self]
             /\ pc' = [pc EXCEPT ![self] = "g2"]
             /\ UNCHANGED << tlock, waiting, woken, queue, results, pause, 
-                            executed, delivered, moved, reached, inpause, spur, 
-                            ip, nq, nr, cur, stack >>
+                            executed, delivered, moved, inloop, early, inpause, 
+                            spur, ip, nq, nr, cur, stack >>
 
 g2(self) == /\ pc[self] = "g2"
             /\ owner' = [owner EXCEPT !["dlock"] = NONE]
             /\ pc' = [pc EXCEPT ![self] = "i1"]
             /\ UNCHANGED << tlock, waiting, woken, queue, results, pause, 
-                            executed, delivered, moved, reached, inpause, spur, 
-                            ip, nq, nr, cur, stack >>
+                            executed, delivered, moved, inloop, early, inpause, 
+                            spur, ip, nq, nr, cur, stack >>
 
 q1(self) == /\ pc[self] = "q1"
             /\ owner["dlock"] = NONE
             /\ owner' = [owner EXCEPT !["dlock"] = self]
             /\ pc' = [pc EXCEPT ![self] = "q1b"]
             /\ UNCHANGED << tlock, waiting, woken, queue, results, pause, 
-                            executed, delivered, moved, reached, inpause, spur, 
-                            ip, nq, nr, cur, stack >>
+                            executed, delivered, moved, inloop, early, inpause, 
+                            spur, ip, nq, nr, cur, stack >>
 
 q1b(self) == /\ pc[self] = "q1b"
              /\ nq' = [nq EXCEPT ![self] = nq[self] + 1]
              /\ tlock' = [tlock EXCEPT ![<<self, nq'[self]>>] = "held"]
              /\ pc' = [pc EXCEPT ![self] = "q2"]
              /\ UNCHANGED << owner, waiting, woken, queue, results, pause, 
-                             executed, delivered, moved, reached, inpause, 
-                             spur, ip, nr, cur, stack >>
+                             executed, delivered, moved, inloop, early, 
+                             inpause, spur, ip, nr, cur, stack >>
 
 q2(self) == /\ pc[self] = "q2"
             /\ owner["qlock"] = NONE
             /\ owner' = [owner EXCEPT !["qlock"] = self]
             /\ pc' = [pc EXCEPT ![self] = "q3"]
             /\ UNCHANGED << tlock, waiting, woken, queue, results, pause, 
-                            executed, delivered, moved, reached, inpause, spur, 
-                            ip, nq, nr, cur, stack >>
+                            executed, delivered, moved, inloop, early, inpause, 
+                            spur, ip, nq, nr, cur, stack >>
 
 q3(self) == /\ pc[self] = "q3"
             /\ queue' = Append(queue, <<self, nq[self]>>)
             /\ pc' = [pc EXCEPT ![self] = "q4"]
             /\ UNCHANGED << owner, tlock, waiting, woken, results, pause, 
-                            executed, delivered, moved, reached, inpause, spur, 
-                            ip, nq, nr, cur, stack >>
+                            executed, delivered, moved, inloop, early, inpause, 
+                            spur, ip, nq, nr, cur, stack >>
 
 q4(self) == /\ pc[self] = "q4"
             /\ owner' = [owner EXCEPT !["qlock"] = NONE]
             /\ pc' = [pc EXCEPT ![self] = "q5"]
             /\ UNCHANGED << tlock, waiting, woken, queue, results, pause, 
-                            executed, delivered, moved, reached, inpause, spur, 
-                            ip, nq, nr, cur, stack >>
+                            executed, delivered, moved, inloop, early, inpause, 
+                            spur, ip, nq, nr, cur, stack >>
 
 q5(self) == /\ pc[self] = "q5"
             /\ owner' = [owner EXCEPT !["dlock"] = NONE]
             /\ pc' = [pc EXCEPT ![self] = "i1"]
             /\ UNCHANGED << tlock, waiting, woken, queue, results, pause, 
-                            executed, delivered, moved, reached, inpause, spur, 
-                            ip, nq, nr, cur, stack >>
+                            executed, delivered, moved, inloop, early, inpause, 
+                            spur, ip, nq, nr, cur, stack >>
 
 r1(self) == /\ pc[self] = "r1"
             /\ tlock[<<self, nr[self]>>] = "free"
             /\ tlock' = [tlock EXCEPT ![<<self, nr[self]>>] = "held"]
             /\ pc' = [pc EXCEPT ![self] = "r2"]
             /\ UNCHANGED << owner, waiting, woken, queue, results, pause, 
-                            executed, delivered, moved, reached, inpause, spur, 
-                            ip, nq, nr, cur, stack >>
+                            executed, delivered, moved, inloop, early, inpause, 
+                            spur, ip, nq, nr, cur, stack >>
 
 r2(self) == /\ pc[self] = "r2"
             /\ owner["reslock"] = NONE
             /\ owner' = [owner EXCEPT !["reslock"] = self]
             /\ pc' = [pc EXCEPT ![self] = "r3"]
             /\ UNCHANGED << tlock, waiting, woken, queue, results, pause, 
-                            executed, delivered, moved, reached, inpause, spur, 
-                            ip, nq, nr, cur, stack >>
+                            executed, delivered, moved, inloop, early, inpause, 
+                            spur, ip, nq, nr, cur, stack >>
 
 r3(self) == /\ pc[self] = "r3"
             /\ Assert(<<self, nr[self]>> \in results, 
-                      "Failure of assertion at line 112, column 11.")
+                      "Failure of assertion at line 114, column 11.")
             /\ results' = results \ {<<self, nr[self]>>}
             /\ delivered' = [delivered EXCEPT ![<<self, nr[self]>>] = delivered[<<self, nr[self]>>] + 1]
             /\ pc' = [pc EXCEPT ![self] = "r4"]
             /\ UNCHANGED << owner, tlock, waiting, woken, queue, pause, 
-                            executed, moved, reached, inpause, spur, ip, nq, 
-                            nr, cur, stack >>
+                            executed, moved, inloop, early, inpause, spur, ip, 
+                            nq, nr, cur, stack >>
 
 r4(self) == /\ pc[self] = "r4"
             /\ owner' = [owner EXCEPT !["reslock"] = NONE]
             /\ pc' = [pc EXCEPT ![self] = "r5"]
             /\ UNCHANGED << tlock, waiting, woken, queue, results, pause, 
-                            executed, delivered, moved, reached, inpause, spur, 
-                            ip, nq, nr, cur, stack >>
+                            executed, delivered, moved, inloop, early, inpause, 
+                            spur, ip, nq, nr, cur, stack >>
 
 r5(self) == /\ pc[self] = "r5"
             /\ tlock' = [tlock EXCEPT ![<<self, nr[self]>>] = "gone"]
             /\ pc' = [pc EXCEPT ![self] = "i1"]
             /\ UNCHANGED << owner, waiting, woken, queue, results, pause, 
-                            executed, delivered, moved, reached, inpause, spur, 
-                            ip, nq, nr, cur, stack >>
+                            executed, delivered, moved, inloop, early, inpause, 
+                            spur, ip, nq, nr, cur, stack >>
 
 p1(self) == /\ pc[self] = "p1"
             /\ owner["plock"] = NONE
             /\ owner' = [owner EXCEPT !["plock"] = self]
             /\ pc' = [pc EXCEPT ![self] = "p2"]
             /\ UNCHANGED << tlock, waiting, woken, queue, results, pause, 
-                            executed, delivered, moved, reached, inpause, spur, 
-                            ip, nq, nr, cur, stack >>
+                            executed, delivered, moved, inloop, early, inpause, 
+                            spur, ip, nq, nr, cur, stack >>
 
 p2(self) == /\ pc[self] = "p2"
             /\ pause' = (pause \cup {self})
-            /\ reached' = [reached EXCEPT ![self] = FALSE]
             /\ pc' = [pc EXCEPT ![self] = "p3"]
             /\ UNCHANGED << owner, tlock, waiting, woken, queue, results, 
-                            executed, delivered, moved, inpause, spur, ip, nq, 
-                            nr, cur, stack >>
+                            executed, delivered, moved, inloop, early, inpause, 
+                            spur, ip, nq, nr, cur, stack >>
 
 p3(self) == /\ pc[self] = "p3"
             /\ IF waiting["plock"] # {}
@@ -492,15 +496,15 @@ p3(self) == /\ pc[self] = "p3"
                        /\ UNCHANGED << waiting, woken, spur >>
             /\ pc' = [pc EXCEPT ![self] = "p4"]
             /\ UNCHANGED << owner, tlock, queue, results, pause, executed, 
-                            delivered, moved, reached, inpause, ip, nq, nr, 
-                            cur, stack >>
+                            delivered, moved, inloop, early, inpause, ip, nq, 
+                            nr, cur, stack >>
 
 p4(self) == /\ pc[self] = "p4"
             /\ owner' = [owner EXCEPT !["plock"] = NONE]
             /\ pc' = [pc EXCEPT ![self] = "i1"]
             /\ UNCHANGED << tlock, waiting, woken, queue, results, pause, 
-                            executed, delivered, moved, reached, inpause, spur, 
-                            ip, nq, nr, cur, stack >>
+                            executed, delivered, moved, inloop, early, inpause, 
+                            spur, ip, nq, nr, cur, stack >>
 
 w1(self) == /\ pc[self] = "w1"
             /\ owner["plock"] = NONE
@@ -508,16 +512,16 @@ w1(self) == /\ pc[self] = "w1"
             /\ spur' = [spur EXCEPT ![self] = FALSE]
             /\ pc' = [pc EXCEPT ![self] = "w2"]
             /\ UNCHANGED << tlock, waiting, woken, queue, results, pause, 
-                            executed, delivered, moved, reached, inpause, ip, 
-                            nq, nr, cur, stack >>
+                            executed, delivered, moved, inloop, early, inpause, 
+                            ip, nq, nr, cur, stack >>
 
 w2(self) == /\ pc[self] = "w2"
             /\ owner' = [owner EXCEPT !["plock"] = NONE]
             /\ waiting' = [waiting EXCEPT !["plock"] = waiting["plock"] \cup {self}]
             /\ pc' = [pc EXCEPT ![self] = "w3"]
             /\ UNCHANGED << tlock, woken, queue, results, pause, executed, 
-                            delivered, moved, reached, inpause, spur, ip, nq, 
-                            nr, cur, stack >>
+                            delivered, moved, inloop, early, inpause, spur, ip, 
+                            nq, nr, cur, stack >>
 
 w3(self) == /\ pc[self] = "w3"
             /\ self \in woken["plock"] /\ owner["plock"] = NONE
@@ -525,17 +529,18 @@ w3(self) == /\ pc[self] = "w3"
             /\ owner' = [owner EXCEPT !["plock"] = self]
             /\ pc' = [pc EXCEPT ![self] = "w4"]
             /\ UNCHANGED << tlock, waiting, queue, results, pause, executed, 
-                            delivered, moved, reached, inpause, spur, ip, nq, 
-                            nr, cur, stack >>
+                            delivered, moved, inloop, early, inpause, spur, ip, 
+                            nq, nr, cur, stack >>
 
 w4(self) == /\ pc[self] = "w4"
             /\ owner' = [owner EXCEPT !["plock"] = NONE]
             /\ inpause' = [inpause EXCEPT ![self] = TRUE]
+            /\ early' = [early EXCEPT ![self] = ~inloop]
             /\ moved' = [moved EXCEPT ![self] = FALSE]
             /\ pc' = [pc EXCEPT ![self] = "i1"]
             /\ UNCHANGED << tlock, waiting, woken, queue, results, pause, 
-                            executed, delivered, reached, spur, ip, nq, nr, 
-                            cur, stack >>
+                            executed, delivered, inloop, spur, ip, nq, nr, cur, 
+                            stack >>
 
 c1(self) == /\ pc[self] = "c1"
             /\ owner["plock"] = NONE
@@ -543,15 +548,15 @@ c1(self) == /\ pc[self] = "c1"
             /\ inpause' = [inpause EXCEPT ![self] = FALSE]
             /\ pc' = [pc EXCEPT ![self] = "c2"]
             /\ UNCHANGED << tlock, waiting, woken, queue, results, pause, 
-                            executed, delivered, moved, reached, spur, ip, nq, 
-                            nr, cur, stack >>
+                            executed, delivered, moved, inloop, early, spur, 
+                            ip, nq, nr, cur, stack >>
 
 c2(self) == /\ pc[self] = "c2"
             /\ pause' = pause \ {self}
             /\ pc' = [pc EXCEPT ![self] = "c3"]
             /\ UNCHANGED << owner, tlock, waiting, woken, queue, results, 
-                            executed, delivered, moved, reached, inpause, spur, 
-                            ip, nq, nr, cur, stack >>
+                            executed, delivered, moved, inloop, early, inpause, 
+                            spur, ip, nq, nr, cur, stack >>
 
 c3(self) == /\ pc[self] = "c3"
             /\ IF waiting["plock"] # {}
@@ -563,38 +568,38 @@ c3(self) == /\ pc[self] = "c3"
                        /\ UNCHANGED << waiting, woken, spur >>
             /\ pc' = [pc EXCEPT ![self] = "c4"]
             /\ UNCHANGED << owner, tlock, queue, results, pause, executed, 
-                            delivered, moved, reached, inpause, ip, nq, nr, 
-                            cur, stack >>
+                            delivered, moved, inloop, early, inpause, ip, nq, 
+                            nr, cur, stack >>
 
 c4(self) == /\ pc[self] = "c4"
             /\ owner["qlock"] = NONE
             /\ owner' = [owner EXCEPT !["qlock"] = self]
             /\ pc' = [pc EXCEPT ![self] = "c5"]
             /\ UNCHANGED << tlock, waiting, woken, queue, results, pause, 
-                            executed, delivered, moved, reached, inpause, spur, 
-                            ip, nq, nr, cur, stack >>
+                            executed, delivered, moved, inloop, early, inpause, 
+                            spur, ip, nq, nr, cur, stack >>
 
 c5(self) == /\ pc[self] = "c5"
             /\ woken' = [woken EXCEPT !["qlock"] = woken["qlock"] \cup waiting["qlock"]]
             /\ waiting' = [waiting EXCEPT !["qlock"] = {}]
             /\ pc' = [pc EXCEPT ![self] = "c6"]
             /\ UNCHANGED << owner, tlock, queue, results, pause, executed, 
-                            delivered, moved, reached, inpause, spur, ip, nq, 
-                            nr, cur, stack >>
+                            delivered, moved, inloop, early, inpause, spur, ip, 
+                            nq, nr, cur, stack >>
 
 c6(self) == /\ pc[self] = "c6"
             /\ owner' = [owner EXCEPT !["qlock"] = NONE]
             /\ pc' = [pc EXCEPT ![self] = "c7"]
             /\ UNCHANGED << tlock, waiting, woken, queue, results, pause, 
-                            executed, delivered, moved, reached, inpause, spur, 
-                            ip, nq, nr, cur, stack >>
+                            executed, delivered, moved, inloop, early, inpause, 
+                            spur, ip, nq, nr, cur, stack >>
 
 c7(self) == /\ pc[self] = "c7"
             /\ owner' = [owner EXCEPT !["plock"] = NONE]
             /\ pc' = [pc EXCEPT ![self] = "i1"]
             /\ UNCHANGED << tlock, waiting, woken, queue, results, pause, 
-                            executed, delivered, moved, reached, inpause, spur, 
-                            ip, nq, nr, cur, stack >>
+                            executed, delivered, moved, inloop, early, inpause, 
+                            spur, ip, nq, nr, cur, stack >>
 
 I(self) == i0(self) \/ i1(self) \/ g1(self) \/ g2(self) \/ q1(self)
               \/ q1b(self) \/ q2(self) \/ q3(self) \/ q4(self) \/ q5(self)
@@ -619,7 +624,7 @@ ExactlyOnce ==
     /\ \A id \in Ids : executed[id] <= 1 /\ delivered[id] <= 1
     /\ \A id \in Ids : delivered[id] = 1 => executed[id] = 1
 PauseHolds == \A i \in Iface : inpause[i] => ~moved[i]
-WaitNotEarly == \A i \in Iface : inpause[i] => reached[i]
+WaitNotEarly == \A i \in Iface : inpause[i] => ~early[i]
 AllDone == \A i \in Iface : pc[i] = "Done"
 \* every interface program finishes, and everything it queued and asked for
 \* was delivered
@@ -638,7 +643,7 @@ IfacesTerminateM == <>(AllDone \/ KnownStuck)
 SolverLiveM == []<>(pc[Solver] = "s1" \/ KnownStuck)
 \* C18-spurious-wait-return: a waiter woken by another interface's notify
 PauseHoldsM == \A i \in Iface : inpause[i] => (~moved[i] \/ spur[i])
-WaitNotEarlyM == \A i \in Iface : inpause[i] => (reached[i] \/ spur[i])
+WaitNotEarlyM == \A i \in Iface : inpause[i] => (~early[i] \/ spur[i])
 TypeOK == /\ \A l \in DOMAIN owner : owner[l] \in {NONE, Solver} \cup Iface
           /\ pause \subseteq Iface
 =============================================================================
